@@ -128,6 +128,12 @@ func verifRandValue(t reflect.Type, r *rand.Rand, scale int64, depth int) reflec
 			n = 3
 		}
 		s := reflect.MakeSlice(t, n, n+r.Intn(3))
+		if s.Cap() > n && depth == 0 {
+			full := s.Slice(0, s.Cap())
+			for i := n; i < s.Cap(); i++ {
+				full.Index(i).Set(verifRandValue(t.Elem(), r, -1, depth+1))
+			}
+		}
 		for i := 0; i < n; i++ {
 			es := scale
 			if t.Elem().Kind() == reflect.Int32 && r.Intn(8) != 0 {
@@ -173,9 +179,15 @@ func verifCopy(v reflect.Value) reflect.Value {
 		if v.IsNil() {
 			return v
 		}
-		c := reflect.MakeSlice(v.Type(), v.Len(), v.Len())
+		c := reflect.MakeSlice(v.Type(), v.Len(), v.Cap())
 		for i := 0; i < v.Len(); i++ {
 			c.Index(i).Set(verifCopy(v.Index(i)))
+		}
+		if v.Cap() > v.Len() {
+			full, cf := v.Slice(0, v.Cap()), c.Slice(0, v.Cap())
+			for i := v.Len(); i < v.Cap(); i++ {
+				cf.Index(i).Set(verifCopy(full.Index(i)))
+			}
 		}
 		return c
 	case reflect.Ptr:
@@ -223,7 +235,17 @@ func verifDump(v reflect.Value) interface{} {
 			out[i] = verifDump(v.Index(i))
 		}
 		if v.Kind() == reflect.Slice {
-			return map[string]interface{}{"slice": out, "cap": v.Cap(), "nil": v.IsNil()}
+			m := map[string]interface{}{"slice": out, "cap": v.Cap(), "nil": v.IsNil()}
+			// the spare capacity behind the slice is caller-visible memory too
+			if v.Cap() > v.Len() && v.Cap()-v.Len() <= 64 {
+				full := v.Slice(0, v.Cap())
+				tail := make([]interface{}, 0, v.Cap()-v.Len())
+				for i := v.Len(); i < v.Cap(); i++ {
+					tail = append(tail, verifDump(full.Index(i)))
+				}
+				m["tail"] = tail
+			}
+			return m
 		}
 		return map[string]interface{}{"slice": out, "cap": v.Len()}
 	case reflect.Ptr:
